@@ -2,17 +2,20 @@
 """Freeze the vocabulary the rules were written against (regenerate after every commit to /repo):
 tables/known_functions.txt  <config> <function key> <signature>   every function of /repo's workspace, per build configuration
 tables/known_fields.txt     <adt> <variant> <index> <field name> <type>   fields of the workspace's own types
+tables/known_closures.txt   <config> <closure key> <content hash>   closures are renumbered by content (engine/mir.py normalise_closures)
 tables/known_consts.txt     <const key> <type> <evaluated integer>   named constants with an integer value
 engine/mir.py uses them on the analysed tree (a) to resolve an unambiguous rename of a private function or field back to the
 name the rules know, and (b) to expand calls to helpers that are new (unknown to every rule) at their call sites."""
 import sys
 sys.path.insert(0, "/verif")
 from engine import facts, mir
-fn, fields, kconsts = [], {}, {}
+fn, fields, kconsts, kclos = [], {}, {}, []
 for cfg in ("ws", "h3-plain"):
     prog = facts.load(cfg)
     for b in prog.bodies:
         fn.append("%s\t%s\t%s" % (cfg, b.key, mir.signature(b.j)))
+        if "{closure#" in b.key:
+            kclos.append("%s\t%s\t%s" % (cfg, b.key, mir.body_hash(b.j)))
     for c, d in prog.crates.items():
         for k in d["consts"]:
             kconsts[k["key"]] = (k.get("ty") or "?", str(k.get("int")))
@@ -25,6 +28,8 @@ with open("/verif/tables/known_functions.txt", "w") as fh:
     fh.write("\n".join(sorted(set(fn))) + "\n")
 with open("/verif/tables/known_fields.txt", "w") as fh:
     fh.write("\n".join("%s\t%s\t%d\t%s\t%s" % (k + v) for k, v in sorted(fields.items())) + "\n")
+with open("/verif/tables/known_closures.txt", "w") as fh:
+    fh.write("\n".join(sorted(set(kclos))) + "\n")
 with open("/verif/tables/known_consts.txt", "w") as fh:
     fh.write("\n".join("%s\t%s\t%s" % (k, v[0], v[1]) for k, v in sorted(kconsts.items())) + "\n")
 print(len(fn), "function keys,", len(fields), "fields,", len(kconsts), "constants")
